@@ -38,6 +38,7 @@ def dispatch (line : String) : String :=
       | "pan" => handlePan rest
       | "async" => handleAsync obs
       | "cc" => handleCc args obs
+      | "ccavx" => handleCcAvx args obs
       | "ccrust" => handleCcRust args obs
       | "sigty" => handleSigTy args obs
       | "sigpair" => handleSigPair args obs
